@@ -149,6 +149,15 @@ fn typed_laws<A: Archetype>(ctx: &Ctx, e: EntityAny, with_panics: bool, inp: &In
             let rm: &mut EntityAny = (&mut t2).into();
             chk!(ctx, *rm == e, "C14", "mut-ref-conversion", *inp, "<&mut EntityAny>::from(&mut typed) = {:?} for {:?}", rm, e);
             chk!(ctx, t == t2 && h1(&t) == h1(&t2) && h2(&t) == h2(&t2), "C14", "typed-eq-hash", *inp, "a typed handle and its copy differ in ==/hash");
+            // typed handles with different bits (other generation, other position) are different entities
+            let (k, g) = e.raw();
+            for (k2, g2) in [(k, g ^ 1), (k, g ^ 0x8000_0000), (k ^ 0x100, g)] {
+                if g2 != 0 {
+                    if let Ok(o) = Entity::<A>::try_from(EntityAny::from_raw((k2, g2)).unwrap()) {
+                        chk!(ctx, o != t && o.into_any() != e, "C14", "distinct-bits-compare-equal:typed", *inp, "typed handles {:?} and {:?} compare equal", t, o);
+                    }
+                }
+            }
             // from_any agrees with try_from when the archetype matches (no panic expected)
             let f = Entity::<A>::from_any(e);
             let u = Entity::<A>::from_any_unchecked(e);
